@@ -1,4 +1,69 @@
-From Coq Require Import List.
-Theorem c15_stub : forall (A : Type) (l : list A), l ++ nil = l.
-Proof. intros; apply app_nil_r. Qed.
-Print Assumptions c15_stub.
+From Coq Require Import ZArith List Ascii.
+From Cspuz Require Import Lib.PyErr Codec.Comb Codec.CombWf Codec.CombBasics Codec.CombLeaf Codec.CombRoundTrip.
+Import ListNotations.
+Local Open Scope Z_scope.
+
+(* every well-formed composition of FixStr/Dict/Spaces/DecInt/HexInt/IntSpaces/MultiDigit/OneOf/Tupl/Seq/Grid,
+   every value it serializes (in its documented shape), every board size >= 1, every follow-compatible rest *)
+Theorem roundtrip : forall e c data idx k s rest,
+  env_ok e -> wf c = true -> rooms_free c = true ->
+  ser e c (VList data) idx = Ok (Some (k, s)) -> accepts e c data idx -> follow_ok c rest ->
+  exists items, de e c (s ++ rest) = Ok (Some (length s, items))
+    /\ firstn k items = firstn k (skipn idx data) /\ (k <= length items)%nat
+    /\ (exact e c data idx -> length items = k).
+Proof. intros e c data idx k s rest He Hwf Hrf. exact (roundtrip_rooms_free e c He Hwf Hrf data idx k s rest). Qed.
+Print Assumptions roundtrip.
+
+Theorem problem_roundtrip : forall c v h w s, 1 <= h -> 1 <= w -> wf c = true -> rooms_free c = true ->
+  accepts (mk_env h w) c [v] 0 -> exact (mk_env h w) c [v] 0 -> consumed_all (mk_env h w) c [v] ->
+  serialize_problem c v h w = Ok s -> deserialize_problem c s h w = Ok (Some v).
+Proof. exact CombRoundTrip.problem_roundtrip. Qed.
+Print Assumptions problem_roundtrip.
+
+(* the same for terms that contain Rooms / ValuedRooms, given the round trip of those two combinators *)
+Theorem roundtrip_given_rooms : forall e c, env_ok e -> rooms_hyp e -> wf c = true -> RT e c.
+Proof. exact CombRoundTrip.roundtrip_given_rooms. Qed.
+Print Assumptions roundtrip_given_rooms.
+
+(* leading characters: what serialization emits starts in the first set; a strict term decodes nothing else *)
+Theorem first_of_ser : forall e c, env_ok e -> wf c = true -> rooms_free c = true -> FS e c.
+Proof. exact CombRoundTrip.first_of_ser. Qed.
+Print Assumptions first_of_ser.
+
+Theorem de_none_outside_first : forall e c, env_ok e -> wf c = true -> rooms_free c = true -> FD e c.
+Proof. exact CombRoundTrip.de_none_outside_first. Qed.
+Print Assumptions de_none_outside_first.
+
+(* per-combinator round trips *)
+Theorem fixstr_roundtrip : forall e t, RT e (FixStr t).
+Proof. exact fixstr_rt. Qed.
+Print Assumptions fixstr_roundtrip.
+
+Theorem dict_roundtrip : forall e before after, wf (Dict before after) = true -> RT e (Dict before after).
+Proof. exact dict_rt. Qed.
+Print Assumptions dict_roundtrip.
+
+Theorem spaces_roundtrip : forall e sp sm, wf (Spaces sp sm) = true -> RT e (Spaces sp sm).
+Proof. exact spaces_rt. Qed.
+Print Assumptions spaces_roundtrip.
+
+Theorem decint_roundtrip : forall e, RT e DecInt.
+Proof. exact decint_rt. Qed.
+Print Assumptions decint_roundtrip.
+
+Theorem hexint_roundtrip : forall e, RT e HexInt.
+Proof. exact hexint_rt. Qed.
+Print Assumptions hexint_roundtrip.
+
+Theorem intspaces_roundtrip : forall e sp mi ms, wf (IntSpaces sp mi ms) = true -> RT e (IntSpaces sp mi ms).
+Proof. exact intspaces_rt. Qed.
+Print Assumptions intspaces_roundtrip.
+
+Theorem multidigit_roundtrip : forall e b d, wf (MultiDigit b d) = true -> RT e (MultiDigit b d).
+Proof. exact md_rt. Qed.
+Print Assumptions multidigit_roundtrip.
+
+(* int(str(n)) = n, int(hex digits of n, 16) = n, base 36 likewise *)
+Theorem int_of_digits : forall b n, 2 <= b <= 36 -> 0 <= n -> py_int (to_base b n) b = Ok n.
+Proof. exact py_int_to_base. Qed.
+Print Assumptions int_of_digits.
